@@ -31,7 +31,7 @@ fn gen_index(rng: &mut Prng) -> usize {
 }
 
 fn gen_limit(rng: &mut Prng) -> u64 {
-    *rng.pick(&[1u64, 2, 3, 100, 65535, 65536, 65536, 1 << 15, 7])
+    *rng.pick(&[1u64, 2, 3, 7, 100, 255, 256, 257, (1 << 15) - 1, 1 << 15, 65535, 65535, 65536, 65536])
 }
 
 fn gen_id(rng: &mut Prng, limit: u64) -> u64 {
@@ -44,13 +44,14 @@ fn gen_id(rng: &mut Prng, limit: u64) -> u64 {
 }
 
 fn gen_signal(rng: &mut Prng) -> Vec<u8> {
-    let n = match rng.weighted(&[2, 2, 2, 1, 1, 1, 1]) {
+    let n = match rng.weighted(&[2, 2, 2, 1, 1, 1, 1, 1]) {
         0 => 0,
         1 => 1,
         2 => rng.usize_below(40),
         3 => 135,
         4 => 136,
         5 => 137,
+        6 => *rng.pick(&[31usize, 32, 33, 64, 272, 273]),
         _ => 200 + rng.usize_below(2000),
     };
     rng.bytes(n)
